@@ -32,6 +32,7 @@ var c14Entries = []string{"handleHealthEvent", "executeFailover", "executeFailba
 
 func C14(c *Ctx) {
 	r := c.R
+	defer c14TimerReplaced(c)
 	const pkg = "pkg/ha"
 	r.Explain = "The FailoverController's transition relation over (failover state, role) is extracted by finite-domain disjunctive dataflow for every entry point (health events, timer callbacks, periodic evaluation, operator commands) and pre-configuration, labelled with guard atoms (event type, callback outcome, partner health) and actions (callback invoked, events emitted, timers armed/stopped), and checked against C14's clauses.  Real-time durations and flapping schedules are not decided."
 	r.Rule("C14.T1.roleAfterCallback", "the reported role changes only on a path where the role-change callback was invoked for that role and returned nil (or no callback is set)", 2)
